@@ -396,7 +396,7 @@ where
 
         // Return error if versions don't match
         if self.protocol_version != packet_version {
-            return vec![GenericEvent::NotifyError(MqttError::VersionMismatch)];
+            return self.refuse_send(MqttError::VersionMismatch, Self::initiating_packet_id(&packet));
         }
 
         match packet {
@@ -447,28 +447,28 @@ where
                 if role_id == client_id || role_id == any_id {
                     self.process_send_v3_1_1_subscribe(p)
                 } else {
-                    vec![GenericEvent::NotifyError(MqttError::PacketNotAllowedToSend)]
+                    self.refuse_send(MqttError::PacketNotAllowedToSend, Some(p.packet_id()))
                 }
             }
             GenericPacket::V5_0Subscribe(p) => {
                 if role_id == client_id || role_id == any_id {
                     self.process_send_v5_0_subscribe(p)
                 } else {
-                    vec![GenericEvent::NotifyError(MqttError::PacketNotAllowedToSend)]
+                    self.refuse_send(MqttError::PacketNotAllowedToSend, Some(p.packet_id()))
                 }
             }
             GenericPacket::V3_1_1Unsubscribe(p) => {
                 if role_id == client_id || role_id == any_id {
                     self.process_send_v3_1_1_unsubscribe(p)
                 } else {
-                    vec![GenericEvent::NotifyError(MqttError::PacketNotAllowedToSend)]
+                    self.refuse_send(MqttError::PacketNotAllowedToSend, Some(p.packet_id()))
                 }
             }
             GenericPacket::V5_0Unsubscribe(p) => {
                 if role_id == client_id || role_id == any_id {
                     self.process_send_v5_0_unsubscribe(p)
                 } else {
-                    vec![GenericEvent::NotifyError(MqttError::PacketNotAllowedToSend)]
+                    self.refuse_send(MqttError::PacketNotAllowedToSend, Some(p.packet_id()))
                 }
             }
             // SUBACK/UNSUBACK - Server/Any can send
@@ -543,6 +543,37 @@ where
             // AUTH - Any role can send (v5.0 only)
             GenericPacket::V5_0Auth(p) => self.process_send_v5_0_auth(p),
         }
+    }
+
+    /// The identifier a packet that starts an exchange carries (QoS 1/2 PUBLISH, SUBSCRIBE,
+    /// UNSUBSCRIBE): the application obtained it for this send
+    fn initiating_packet_id(packet: &GenericPacket<PacketIdType>) -> Option<PacketIdType> {
+        match packet {
+            GenericPacket::V3_1_1Publish(p) => p.packet_id(),
+            GenericPacket::V5_0Publish(p) => p.packet_id(),
+            GenericPacket::V3_1_1Subscribe(p) => Some(p.packet_id()),
+            GenericPacket::V5_0Subscribe(p) => Some(p.packet_id()),
+            GenericPacket::V3_1_1Unsubscribe(p) => Some(p.packet_id()),
+            GenericPacket::V5_0Unsubscribe(p) => Some(p.packet_id()),
+            _ => None,
+        }
+    }
+
+    /// Refuse a send before it reaches its handler: like every other refusal, the identifier
+    /// obtained for the packet is released and the release is announced
+    fn refuse_send(
+        &mut self,
+        error: MqttError,
+        packet_id: Option<PacketIdType>,
+    ) -> Vec<GenericEvent<PacketIdType>> {
+        let mut events = vec![GenericEvent::NotifyError(error)];
+        if let Some(packet_id) = packet_id {
+            if self.pid_man.is_used_id(packet_id) {
+                self.pid_man.release_id(packet_id);
+                events.push(GenericEvent::NotifyPacketIdReleased(packet_id));
+            }
+        }
+        events
     }
 
     /// Receive and process incoming MQTT data
